@@ -77,6 +77,7 @@ Definition hook_step (h : hs) (e : event) : option hs :=
   | EvClaimFail p =>
     if in_setup h && negb (h_failed h) && is_spawned (sfind (h_claims h) p) then Some (with_claims h (sput (h_claims h) p CDone)) else None
   | EvDeliver p _ => if in_setup h && is_running (sfind (h_claims h) p) then Some h else None
+  | EvClaimError p _ => if in_setup h && is_running (sfind (h_claims h) p) then Some h else None
   | EvClaimReturn p =>
     if in_setup h && is_running (sfind (h_claims h) p) then Some (with_claims h (sput (h_claims h) p CDone)) else None
   | EvCleanup =>
